@@ -35,6 +35,7 @@ def check(ck):
     r07_2(ck)
     r07_4(ck)
     r07_5(ck)
+    r07_6(ck)
 
 
 def popped_keys(fnode, upd):
@@ -416,3 +417,21 @@ def r07_5(ck):
                '_apply_subschema_path distributes the subschema along the '
                'path', '_apply_subschema_path no longer applies the '
                'subschema / recurses')
+
+
+def r07_6(ck):
+    ck.rule('R07.6', 'views are rebuilt per step layer, so that steps of a '
+            'later layer see the structural changes of an earlier one '
+            '(shared with C05 R05.3)')
+    from . import c05
+    c05.r05_3(ck)
+    OLD, NEW = ('R05.3',), 'R07.6'
+
+    for o in ck.obligations:
+        if o['rule'] in OLD:
+            o['rule'] = NEW
+    for v in ck.violations:
+        if v.rule in OLD:
+            v.rule = NEW
+    for r in OLD:
+        ck.rules.pop(r, None)
